@@ -4,7 +4,7 @@ import json
 import tcpcl_scen as sc
 import tcpcl_monitors as tm
 
-MODULE = 'DtnVerif.Props.C01'
+MODULE = ['DtnVerif.Props.C01', 'DtnVerif.Props.C01Bound']
 
 
 def run(chk):
